@@ -83,6 +83,13 @@ func (s *LocalSubscriber) Ready() (n int) {
 	s.liveMutex.Lock()
 	s.outMutex.Lock()
 
+	if atomic.LoadInt32(&s.disconnected) > 0 {
+		s.outMutex.Unlock()
+		s.liveMutex.Unlock()
+
+		return 0
+	}
+
 	for _, u := range s.liveQueue {
 		select {
 		case s.out <- u:
